@@ -47,13 +47,24 @@ Theorem C11_versioned_delete_frame : forall s fresh k e,
 Proof. exact delete_keeps_other_versions. Qed.
 Print Assumptions C11_versioned_delete_frame.
 
-(* the order of the two attribute writes matters: with the marker flag first (the code before the repair, KNOWN_FINDINGS "fixed"
-   C11) a kill between them makes an acknowledged version vanish *)
+(* while the current file was re-labelled in place the order of the two attribute writes mattered: with the marker flag first (the
+   code before repair 80e96b2, and until 3001e11 still the order under suspended versioning, where the id attribute was removed
+   last) a kill between them makes an acknowledged version vanish *)
 Theorem C11_marker_first_order_refuted :
   let s := {| current := {| c_data := 7; c_vid := 1; c_marker := false |}; archive := [] |} in
   ~ In (1, 7) (shown (run_killed (delete_steps_old 2) s 2)) /\ reads (run_killed (delete_steps_old 2) s 2) = None.
 Proof. exact old_order_loses_version. Qed.
 Print Assumptions C11_marker_first_order_refuted.
+
+(* since repair 3001e11 (the marker is a new file renamed over the current version) there is no state in between: the previous
+   state exactly, or the new state exactly *)
+Theorem C11_versioned_delete_atomic : forall s fresh k,
+  c_marker (current s) = false -> fresh <> c_vid (current s) ->
+  let s' := run_killed (delete_steps fresh) s k in
+  (shown s' = shown s /\ reads s' = reads s) \/
+  (shown s' = (c_vid (current s), c_data (current s)) :: filter (fun e => negb (Nat.eqb (fst e) fresh)) (archive s) /\ reads s' = None).
+Proof. exact delete_atomic. Qed.
+Print Assumptions C11_versioned_delete_atomic.
 
 (* directory objects (keys ending in "/") are written onto the directory itself, attribute by attribute. A first upload is all or
    nothing: the ETag attribute, written after the user metadata, is what makes the directory an object *)
